@@ -354,3 +354,95 @@ class from_key_validator(Contract):
             else:
                 out['locator_outside_the_key_name_refused'] = And(Not(under), result is False)
         return out
+
+
+@contract
+class ed_checker_verify(_Checker):
+    fn = kk.Ed25519Checker._verify
+    cls_, want_type, kind = kk.Ed25519Checker, SignatureType.ED25519, 'ed25519'
+    doc = ('Ed25519Checker._verify: a packet that does not announce Ed25519 is refused without any cryptography; otherwise the key is '
+           'imported from the given bits, a key that is not an ECC key is refused, and verify_ed25519 decides on exactly this packet')
+
+    def post(c, cx, result, cls, pub_key_bits, sig_ptrs):
+        tk, bits, sig = cx.run.ghost['ckr']
+        calls = cx.run.ghost.get('verify_calls', [])
+        if tk != 'matching type':
+            return {'other_signature_types_refused_without_crypto': result is False and calls == []}
+        if not calls:
+            return {'non_ecc_key_refused': result is False}
+        kind, key, s, b = calls[0]
+        return {'the_matching_verifier_is_asked_once': len(calls) == 1 and kind == 'ed25519',
+                'verdict_is_the_verifiers_on_this_packet': (result is b) and s is sig,
+                'key_is_imported_from_the_given_bits': isinstance(key, tuple) and key[-1] is bits}
+
+
+def _install_ed():
+    from pyvc import models
+    models.REAL_FUNCTION_MODELS[kk.verify_ed25519] = _cas._verify_model('ed25519')
+    old = models.BUILTIN_MODELS[isinstance] if isinstance in models.BUILTIN_MODELS else None
+
+
+_install_ed()
+
+
+@contract
+class from_cert(Contract):
+    fn = kk.KnownChecker.from_cert
+    props = ('C14', 'C02')
+    doc = ('KnownChecker.from_cert(certificate): the validator is built (from_key) for the key name = certificate name without its last '
+           'two components and the key bits = the certificate\'s content; decoding errors of the certificate propagate')
+    raises = {e: (lambda cx, **p: True) for e in (ValueError, IndexError, TypeError)}
+
+    def setup(self, cx):
+        run = cx.run
+        calls = []
+        run.ghost['fc'] = calls
+
+        class ClsF:
+            def getattr_(self_, it, name, node):
+                if name == 'from_key':
+                    def f(it_, key_name, key_bits):
+                        v = Opaque('validator', 'validator')
+                        calls.append((key_name, key_bits, v))
+                        return v
+                    return _M(f)
+                raise Unsupported(f'checker class .{name}')
+        return dict(cls=ClsF(), certificate=Opaque('wire', 'certificate wire'))
+
+    def post(c, cx, result, cls, certificate):
+        calls = cx.run.ghost['fc']
+        pc = cx.run.ghost.get('fc.parsed')
+        ok = len(calls) == 1 and pc is not None
+        out = {'one_validator_built_and_returned': ok and result is calls[0][2]}
+        if ok:
+            kn, kb, _ = calls[0]
+            out['key_name_is_the_certificate_name_without_issuer_and_version'] = isinstance(kn, tuple) and kn == ('name[:-2]', pc)
+            out['key_bits_are_the_certificate_content'] = kb is pc.d['content']
+        return out
+
+
+class CertName:
+    def __init__(self, cert):
+        self.cert = cert
+
+    def getslice(self, it, lo, hi, node):
+        if lo is None and hi == -2:
+            return ('name[:-2]', self.cert)
+        raise Unsupported('certificate name slice other than [:-2]')
+
+
+@contract
+class parse_certificate_summary(Contract):
+    fn = kk.parse_certificate
+    assumed = True
+    raises = {e: (lambda cx, **p: True) for e in (ValueError, IndexError)}
+
+    def use_contract_at(c, it, args, kwargs):
+        return 'fc' in it.run.ghost
+
+    def result(c, cx, wire):
+        o = Opaque('cert', 'parsed certificate')
+        o.d['content'] = Opaque('key_bits', 'certificate content')
+        o.d['name'] = CertName(o)
+        cx.run.ghost['fc.parsed'] = o
+        return o
